@@ -84,6 +84,109 @@ def c06_batches(tier):
     return bs
 
 
+# ----------------------------------------------------------------------------- C02
+NOISE_BOUND = {"P128": 0.0037, "P80": 0.0047}
+
+
+def c02_batches(tier):
+    q = tier == "quick"
+    bs = []
+    for be in BACKENDS:
+        for var in ("optim", "debug"):
+            slow = 1.0 if var == "optim" else 0.4
+            bs.append(B("netlist-swarm-%s-%s" % (be, var), "gates", be, var, (120 if q else 3000) * slow, spec="swarm:32", specpool=8, nkeys=2, mode="netlist",
+                        gates=40, pfault=0.3, stats=0, weight=30 if q else 300))
+        bs.append(B("deep-swarm-%s-optim" % be, "gates", be, "optim", 4 if q else 40, spec="swarm:8", specpool=2, nkeys=1, mode="netlist", shape=1,
+                    gates=200 if q else 5000, mingates=200 if q else 5000, pfault=0.1, crash=0, stats=0, weight=30 if q else 600, det_count=1))
+    for spec in ("P128", "P80"):
+        confs = [("spqlios-fma", "optim")] if q else [(be, var) for be in BACKENDS for var in ("optim", "debug")]
+        for be, var in confs:
+            sp = SPEED[be] * (1 if var == "optim" else 8)
+            # statistics batches: binary gates, MUX-heavy netlists, deep chains (depth >= 50), maximal admissible input noise
+            bs.append(B("stat-mixed-%s-%s-%s" % (spec, be, var), "gates", be, var, 150 if q else 450, spec=spec, nkeys=1 if q else 3, mode="netlist", gates=24, mingates=20,
+                        muxbias=0.6, pfault=0.6, crash=0, stats=1, weight=220 * sp, det_count=1, no_determinism=not q))
+            bs.append(B("stat-fresh-%s-%s-%s" % (spec, be, var), "gates", be, var, 660 if q else 2000, spec=spec, nkeys=1 if q else 3, mode="table", prov=0, dev=0,
+                        stats=1, weight=160 * sp, det_count=1, no_determinism=not q))
+            bs.append(B("stat-max-%s-%s-%s" % (spec, be, var), "gates", be, var, 660 if q else 2000, spec=spec, nkeys=1 if q else 3, mode="table", dev=3,
+                        stats=1, weight=200 * sp, det_count=1, no_determinism=not q))
+            bs.append(B("stat-deep-%s-%s-%s" % (spec, be, var), "gates", be, var, 26 if q else 100, spec=spec, nkeys=1 if q else 3, mode="netlist", shape=1, gates=150,
+                        mingates=150, pfault=0.0, crash=0, stats=1, weight=200 * sp, det_count=1, no_determinism=not q))
+    return bs
+
+
+def _sd(st, key):
+    n = st.get(key + ".n", 0)
+    if n < 2:
+        return n, 0.0, 0.0
+    mean = st[key + ".s1"] / n
+    var = max(0.0, st[key + ".s2"] / n - mean * mean)
+    return n, mean, math.sqrt(var)
+
+
+def c02_judge(tier, batches, results, cov, judged):
+    """noise invariants (b) and input independence (c) on the default sets; a statistic is judged only with >= 2500 outputs and a
+    violation is raised only when the estimate exceeds the bound by more than 4 estimator sigma"""
+    out = []
+    groups = {}
+    for b, pb in zip(batches, cov["per_batch"]):
+        if not b["name"].startswith("stat-"):
+            continue
+        key = (b["opts"]["spec"], b["backend"], b["variant"])
+        g = groups.setdefault(key, {})
+        for k, v in pb["stats"].items():
+            if k.endswith(".max"):
+                g[k] = max(g.get(k, 0.0), v)
+            else:
+                g[k] = g.get(k, 0.0) + v
+    for (spec, be, var), st in sorted(groups.items()):
+        name = "%s/%s/%s" % (spec, be, var)
+        for cls, mult in (("bin", 1.0), ("mux", 1.35)):
+            n, mean, sd = _sd(st, cls)
+            bound = NOISE_BOUND[spec] * mult
+            j = {"outputs": int(n), "mean": mean, "sd": sd, "max_abs": st.get(cls + ".max", 0.0), "bound_sd": bound, "bound_mean": 0.25 * bound, "judged": n >= 2500}
+            judged["%s %s" % (name, cls)] = j
+            if n < 2500:
+                continue
+            se_sd = sd / math.sqrt(2 * n)
+            se_mean = sd / math.sqrt(n)
+            if sd > bound + 4 * se_sd:
+                out.append({"oracle": "C02.sd", "detail": "%s %s gates: stdev of the output phase error %.5f > bound %.5f (n=%d, 4 sigma margin %.5f)" % (name, cls, sd, bound, n, 4 * se_sd)})
+            if abs(mean) > 0.25 * bound + 4 * se_mean:
+                out.append({"oracle": "C02.mean", "detail": "%s %s gates: mean output phase error %.6f exceeds 0.25*bound = %.6f (n=%d)" % (name, cls, mean, 0.25 * bound, n)})
+            # input independence: for every input class the same bounds must hold, and the class variance must not differ from the
+            # pooled variance by more than 8 estimator sigma AND 25 % (a small dependence on the rotation amount exists on the
+            # unchanged tree: the truncating gadget decomposition makes the extracted coefficient's bias depend on the partial
+            # rotations; measured 10 % in stdev for inputs pushed to the decision boundary)
+            for ic in ("fresh", "boot", "deep", "max"):
+                m, imean, isd = _sd(st, cls + "." + ic)
+                if m < 1500:
+                    judged["%s %s class %s" % (name, cls, ic)] = {"outputs": int(m), "judged": False}
+                    continue
+                v_all, v_c = sd * sd, isd * isd
+                se = v_all * math.sqrt(2.0 / m + 2.0 / n)
+                judged["%s %s class %s" % (name, cls, ic)] = {"outputs": int(m), "mean": imean, "sd": isd, "pooled_sd": sd, "z": (v_c - v_all) / se if se else 0.0, "judged": True}
+                if isd > bound + 4 * isd / math.sqrt(2 * m):
+                    out.append({"oracle": "C02.sd", "detail": "%s %s gates, input class '%s': stdev %.5f > bound %.5f (n=%d)" % (name, cls, ic, isd, bound, m)})
+                if abs(imean) > 0.25 * bound + 4 * isd / math.sqrt(m):
+                    out.append({"oracle": "C02.mean", "detail": "%s %s gates, input class '%s': mean %.6f exceeds 0.25*bound %.6f (n=%d)" % (name, cls, ic, imean, 0.25 * bound, m)})
+                if abs(v_c - v_all) > 8 * se and abs(v_c - v_all) > 0.25 * v_all * 2:
+                    out.append({"oracle": "C02.independence", "detail": "%s %s gates: stdev %.5f for input class '%s' (n=%d) differs from the pooled %.5f by more than 8 sigma and 25 %%" % (name, cls, isd, ic, m, sd)})
+        # slope of e^2 against depth over chains (binary gates)
+        n = st.get("chain.n", 0)
+        if n >= 2500:
+            sd_, sdd, se_, sde = st["chain.sd"], st["chain.sdd"], st["chain.se"], st["chain.sde"]
+            vd = sdd / n - (sd_ / n) ** 2
+            if vd > 0:
+                slope = (sde / n - (sd_ / n) * (se_ / n)) / vd
+                e2 = se_ / n
+                ve2 = max(st.get("chain.s4", 0.0) / n - e2 * e2, 2 * e2 * e2)
+                se_slope = math.sqrt(ve2 / (n * vd))
+                judged["%s depth-slope" % name] = {"outputs": int(n), "slope_per_level": slope, "se": se_slope, "mean_e2": e2, "growth_over_100_levels": 100 * slope / e2, "judged": True}
+                if abs(slope) > 8 * se_slope and abs(100 * slope) > 0.5 * e2:
+                    out.append({"oracle": "C02.depth", "detail": "%s: squared output error changes with depth: slope %.3g per level (8 sigma = %.3g, mean e^2 %.3g)" % (name, slope, 8 * se_slope, e2)})
+    return out
+
+
 # ----------------------------------------------------------------------------- C04 / C08 / C09 / C15 (lower-level clients)
 def low_batches(tier, ops, name, cnt_q, cnt_t, with_gates=True, default_ops=None, limit_nayuki_debug=False):
     q = tier == "quick"
@@ -256,6 +359,26 @@ RECIPES = {
                       "is decided through its observable consequence (divergence from the sequential reference under some schedule) and the lock "
                       "discipline, not by a happens-before detector; the TSan stress batch (thorough tier) is auxiliary.",
         "assumptions": ["thread_local state is per pthread (tasks are real threads, not fibres)", "floating-point FFT code is deterministic for equal inputs on one machine"],
+    },
+    "C02": {
+        "level": "exploration",
+        "batches": c02_batches,
+        "judge": c02_judge,
+        "oracles": ["C02.", "C01."],
+        "rule": "one run = a seeded netlist (random DAG, chain, tree, heavy fan-out, in-place accumulation; 3..40 gates on swarm sets, chains of "
+                "depth 200 (quick) / 5000 (thorough), 20..150 gates on the default sets) over seeded inputs, evaluated gate by gate; every wire "
+                "is decrypted and compared with the plaintext interpreter (first divergent gate reported); admissible phase faults, wire "
+                "trips, duplicates and cloud restarts ride along. Default-set batches accumulate the phase error of every bootstrapped output "
+                "per (gate class, input class). non-trivial = at least one fault fired; distinct = hash of (spec, faults, op list)",
+        "technique": "deterministic simulation: refinement of seeded netlist evaluations against a plaintext interpreter, with batch-level noise "
+                     "statistics computed by the omniscient observer (sums merged over runs; judged only on >= 2500 outputs)",
+        "level_text": "Seeded exploration over netlists, inputs and keys on all ten builds (refinement), plus statistical invariants on the "
+                      "default sets: stdev <= bound, |mean| <= bound/4, |error| < 3/64, equal variance across input classes (fresh, "
+                      "bootstrapped, depth >= 50, maximal admissible noise) and zero slope of e^2 against depth.",
+        "level_note": "Statistics have a stated detection threshold: a violation is raised only when an estimate exceeds its bound by more than 4 "
+                      "estimator sigma (8 for class comparisons); on the tree the stdev sits 12-16 % under the bounds, so a noise increase below "
+                      "about 20 % is not detected. Quick judges spqlios-fma/optim only; thorough judges all 20 configurations.",
+        "assumptions": ["bounds 0.0037 / 0.0047 (x1.35 for MUX) are the property's own numbers"],
     },
     "C04": {
         "level": "exploration",
